@@ -126,6 +126,9 @@ func (c *Ctx) intrinsic(st *State, fn *ssa.Function, args []Value) (intrRes, boo
 			c.needCase = &caseReq{Name: nm, Lo: sext64(lo.Val, 64), Hi: sext64(hi.Val, 64)}
 			c.finish(st, &PathResult{Outcome: OutInfeasible, Msg: "case discovery"})
 			return intrRes{true, nil}, true
+		case "vhSelU64", "vhSelInt", "vhSelU8":
+			cnd, a, b := args[0].(*Term), args[1].(*Term), args[2].(*Term)
+			return done(tb.Ite(cnd, a, b))
 		case "vhParam":
 			nm := concStr(args[0])
 			if v, ok := c.cfg.Params[nm]; ok {
